@@ -128,6 +128,7 @@ KIND = {"ok_cl": "WfOkCL", "ok_chunked": "WfOkChunked", "stall_short": "WfStallS
         "reset_mid_cl": "WfResetMidCL", "close_mid_cl": "WfCloseMidCL", "close_mid_chunk": "WfCloseMidChunk",
         "no_terminal_chunk": "WfNoTerminalChunk", "bad_chunk_size": "WfBadChunkSize", "reset_mid_eof": "WfResetMidEOF"}
 
+TPL_504 = b"custom504[{{ if .Message }}{{ .Message }}{{ else }}none{{ end }}]"     # harness/c15_test.go
 KNOWN_IDS = {1: "C15-F1-dial-not-bounded", 2: "C15-F2-request-write-not-bounded", 3: "C15-F3-unread-body-stuck-in-dial"}
 HTML = "text/html; charset=utf-8"
 
@@ -279,7 +280,9 @@ def judge(work, all_cases, obs0):
     for fname, hx in (obs0.get("custom_pages") or {}).items():
         m = re.fullmatch(r"(\d+)\.html", fname)
         b = bytes.fromhex(hx)
-        if m and b"{{" not in b:
+        if m and b == TPL_504:
+            custom[int(m.group(1))] = b"custom504[none]"      # a target failure is rendered with nil arguments: the else branch
+        elif m and b"{{" not in b:
             custom[int(m.group(1))] = b
     shard = 60
     jobs = []
@@ -352,7 +355,9 @@ def run(tier, seed):
         f3_custom = {}
         for fname, hx in ((obs[0] if obs else {}).get("custom_pages") or {}).items():
             mm = re.fullmatch(r"(\d+)\.html", fname)
-            if mm and b"{{" not in bytes.fromhex(hx):
+            if mm and bytes.fromhex(hx) == TPL_504:
+                f3_custom[int(mm.group(1))] = b"custom504[none]"
+            elif mm and b"{{" not in bytes.fromhex(hx):
                 f3_custom[int(mm.group(1))] = bytes.fromhex(hx)
         f3_pages = (read_builtin(), f3_custom)
         for j, (a, m) in sorted(failing.items()):
